@@ -171,7 +171,7 @@ let run (toks : string list) : string =
                  (* the signature is genuine when the controller's key is the one stored under its name *)
                  let genuine = (match Hap.store_get !w.Hap.store name with Some k -> k = keyid ctrl | None -> false) in
                  if send (fin true false true name (if genuine then Hap.SGenuine else Hap.SInvalid)) then success := true
-             | "badsig" | "reordered" | "stale" -> if send (Hap.PVStart true) then ignore (send (fin true false true name Hap.SInvalid))
+             | "badsig" | "reordered" | "stale" | "samekey-badsig" | "samekey-reordered" -> if send (Hap.PVStart true) then ignore (send (fin true false true name Hap.SInvalid))
              | "unknown" -> if send (Hap.PVStart true) then ignore (send (fin true false true (ascii ("nobody-" ^ ctrl)) Hap.SInvalid))
              | "unknowntail" ->
                (* the paired name with its last byte changed: a name nobody paired under (the scenarios keep names distinct) *)
